@@ -513,6 +513,10 @@ func checkSinkProvenance(p *Program, r *Report, gates map[*types.TypeName]bool) 
 								rawOK[f] = true
 								return false
 							}
+							// a step of a validated constructor extracted into a helper that only it calls
+							if helperOnlyOf(p, f, func(g *ssa.Function) bool { _, ok := validated[cname(g)]; return ok }, 0) {
+								return false
+							}
 							bad = append(bad, "parameter "+x.Name+" of "+f.Name())
 							return false
 						case "call":
